@@ -36,6 +36,9 @@ pub struct Fx {
     /// signature spread over several lines, one parameter per line
     #[serde(default)]
     pub multiline: bool,
+    /// parameters with a default value (`name=1`): pytest never injects a fixture there
+    #[serde(default)]
+    pub defaults: Vec<String>,
 }
 
 impl Fx {
@@ -59,6 +62,8 @@ pub struct Tst {
     pub body_uses: Vec<String>,
     #[serde(default)]
     pub multiline: bool,
+    #[serde(default)]
+    pub defaults: Vec<String>,
 }
 
 #[derive(Clone, Debug, Serialize, Deserialize, PartialEq)]
@@ -145,7 +150,7 @@ impl W {
     }
 }
 
-fn param_list(w_line_prefix: &str, names: &[String], leading_self: bool) -> (String, Vec<(String, usize, usize)>) {
+fn param_list(w_line_prefix: &str, names: &[String], leading_self: bool, defaults: &[String]) -> (String, Vec<(String, usize, usize)>) {
     // returns the text "(a, b)" positions relative to the whole line
     let mut s = String::from(w_line_prefix);
     s.push('(');
@@ -164,12 +169,19 @@ fn param_list(w_line_prefix: &str, names: &[String], leading_self: bool) -> (Str
         s.push_str(n);
         spans.push((n.clone(), st, s.len()));
     }
+    for d in defaults {
+        if !first {
+            s.push_str(", ");
+        }
+        first = false;
+        s.push_str(&format!("{}=1", d));
+    }
     s.push(')');
     (s, spans)
 }
 
 /// `def f(` / one parameter per line / `)`: returns the lines and, per parameter, (name, line offset, start, end).
-fn param_lines(prefix: &str, ind: &str, names: &[String], leading_self: bool) -> (Vec<String>, Vec<(String, usize, usize, usize)>) {
+fn param_lines(prefix: &str, ind: &str, names: &[String], leading_self: bool, defaults: &[String]) -> (Vec<String>, Vec<(String, usize, usize, usize)>) {
     let mut lines = vec![format!("{}(", prefix)];
     let mut spans = vec![];
     if leading_self {
@@ -179,6 +191,9 @@ fn param_lines(prefix: &str, ind: &str, names: &[String], leading_self: bool) ->
         let st = ind.len() + 4;
         spans.push((n.clone(), lines.len(), st, st + n.len()));
         lines.push(format!("{}    {},", ind, n));
+    }
+    for d in defaults {
+        lines.push(format!("{}    {}=1,", ind, d));
     }
     lines.push(format!("{})", ind));
     (lines, spans)
@@ -278,7 +293,7 @@ pub fn render(items: &[Item]) -> Rendered {
                 out.toks.push(Tok { kind: TokKind::Def, name: f.name().to_string(), line: def_line, start: name_start, end: name_start + f.func.len(), item: idx, in_fixture: None });
                 out.defs.push((f.name().to_string(), def_line, idx));
                 if f.multiline && !f.deps.is_empty() {
-                    let (mut lines, spans) = param_lines(&prefix, ind, &f.deps, f.in_class);
+                    let (mut lines, spans) = param_lines(&prefix, ind, &f.deps, f.in_class, &f.defaults.iter().filter(|d| !f.deps.contains(d)).cloned().collect::<Vec<_>>());
                     if let Some(r) = &f.ret {
                         lines.last_mut().unwrap().push_str(&format!(" -> {}", r));
                     }
@@ -290,7 +305,7 @@ pub fn render(items: &[Item]) -> Rendered {
                         w.ln(l);
                     }
                 } else {
-                    let (mut sig, spans) = param_list(&prefix, &f.deps, f.in_class);
+                    let (mut sig, spans) = param_list(&prefix, &f.deps, f.in_class, &f.defaults.iter().filter(|d| !f.deps.contains(d)).cloned().collect::<Vec<_>>());
                     if let Some(r) = &f.ret {
                         sig.push_str(&format!(" -> {}", r));
                     }
@@ -356,7 +371,7 @@ pub fn render(items: &[Item]) -> Rendered {
                 }
                 let prefix = format!("{}def {}", ind, t.name);
                 if t.multiline && !t.params.is_empty() {
-                    let (mut lines, spans) = param_lines(&prefix, ind, &t.params, t.in_class);
+                    let (mut lines, spans) = param_lines(&prefix, ind, &t.params, t.in_class, &t.defaults.iter().filter(|d| !t.params.contains(d)).cloned().collect::<Vec<_>>());
                     lines.last_mut().unwrap().push(':');
                     for (n, off, s, e) in spans {
                         out.toks.push(Tok { kind: TokKind::TestParam, name: n, line: w.line + off, start: s, end: e, item: idx, in_fixture: None });
@@ -365,7 +380,7 @@ pub fn render(items: &[Item]) -> Rendered {
                         w.ln(l);
                     }
                 } else {
-                    let (mut sig, spans) = param_list(&prefix, &t.params, t.in_class);
+                    let (mut sig, spans) = param_list(&prefix, &t.params, t.in_class, &t.defaults.iter().filter(|d| !t.params.contains(d)).cloned().collect::<Vec<_>>());
                     sig.push(':');
                     for (n, s, e) in spans {
                         out.toks.push(Tok { kind: TokKind::TestParam, name: n, line: w.line, start: s, end: e, item: idx, in_fixture: None });
@@ -460,7 +475,15 @@ pub fn gen_items(rng: &mut Rng, names: &[String], is_test_file: bool, o: &GenOpt
             doc: if rng.chance(200) { Some("doc".to_string()) } else { None },
             body_uses: if o.body_uses && style != 2 && rng.chance(150) { subset(rng, names, 1) } else { vec![] },
             multiline: rng.chance(o.multiline_per_mille),
+            defaults: if style != 2 && rng.chance(70) { vec![rng.pick(names).clone()] } else { vec![] },
         }));
+    }
+    // a default-valued parameter must not repeat a declared one
+    for it in items.iter_mut() {
+        if let Item::Fixture(f) = it {
+            let deps = f.deps.clone();
+            f.defaults.retain(|d| !deps.contains(d));
+        }
     }
     if o.marks && rng.chance(80) {
         let m = subset(rng, names, 2);
@@ -478,7 +501,18 @@ pub fn gen_items(rng: &mut Rng, names: &[String], is_test_file: bool, o: &GenOpt
             in_class: o.in_class && rng.chance(150),
             body_uses: if o.body_uses && rng.chance(200) { subset(rng, names, 2) } else { vec![] },
             multiline: rng.chance(o.multiline_per_mille),
+            defaults: vec![],
         }));
+    }
+    for it in items.iter_mut() {
+        if let Item::Test(t) = it {
+            if rng.chance(50) {
+                let d = rng.pick(names).clone();
+                if !t.params.contains(&d) {
+                    t.defaults.push(d);
+                }
+            }
+        }
     }
     rng.shuffle(&mut items);
     items
